@@ -92,6 +92,17 @@ def mvccBkStep (b : MvccBk) (toks : List String) : MvccBk × String :=
     match storeEffects b s toks with
     | some (d, c) => ({ b with base := d, stored := some c }, "ok")
     | none => (b, "bad-op")
+  | "visitgap" :: s :: rest =>
+    -- Visitor while a same-epoch delete of `delkey` is parked between its mark and its unlink: the delete has
+    -- taken effect (its linearization point is the level-0 mark), so the model deletes first and then visits
+    match natArg rest "delkey" with
+    | none => (b, "bad-op")
+    | some k =>
+      let (d1, o1) := mvccStep b.base ["del", "0", toString k]
+      if o1 == "bad-op" then (b, "bad-op") else
+      let vis := ["visit", s] ++ rest.filter (fun t => t.startsWith "shards=" || t.startsWith "conc=")
+      let (d2, o2) := mvccStep d1 vis
+      if o2 == "bad-op" then (b, "bad-op") else ({ b with base := d2 }, s!"del={o1} {o2}")
   | ["image"] => (b, "*")
   | ["manifest", _, _] => (b, "*")
   | ["laststeps"] => (b, "*")
